@@ -126,8 +126,8 @@ impl Property for Embed {
 
     fn runs(&self, tier: Tier) -> u64 {
         match tier {
-            Tier::Quick => 11 * 40,
-            Tier::Thorough => 11 * 3000,
+            Tier::Quick => 11 * 600,
+            Tier::Thorough => 11 * 40_000,
         }
     }
 
